@@ -76,6 +76,16 @@ SIM_XFER = {"consts": {"MaxTerm": 12, "MaxLog": 12, "MaxCmds": 4, "MaxCrash": 1,
             "num": 100, "depth": 70}
 SIM_XFER_T = dict(SIM_XFER, num=1500, depth=90)
 
+CLIENT_INV = ["Inv_C07", "Inv_C03", "Inv_C02"]
+ALLOPS = '{"update", "read", "barrier", "dirty"}'
+CLIENT_Q = {"name": "client-2n", "consts": {"Node": "{n1, n2}", "InitVoters": "{n1, n2}", "MaxTerm": 3, "MaxLog": 4, "MaxInflight": 1, "MaxElections": 2, "MaxCmds": 2,
+                                           "TrackClients": "TRUE", "ClientOps": ALLOPS}, "invariants": CLIENT_INV, "timeout": 900}
+CLIENT_T = {"name": "client-2n-3ops", "consts": {"Node": "{n1, n2}", "InitVoters": "{n1, n2}", "MaxTerm": 3, "MaxLog": 4, "MaxInflight": 1, "MaxElections": 2, "MaxCmds": 3, "MaxCrash": 1,
+                                                "TrackClients": "TRUE", "ClientOps": ALLOPS}, "invariants": CLIENT_INV, "timeout": 2400, "may_timeout": True}
+SIM_CLIENT = {"consts": {"MaxTerm": 12, "MaxLog": 12, "MaxCmds": 10, "MaxCrash": 1, "MaxInflight": 2, "MaxElections": 10, "Orphans": "TRUE", "Reduce": "FALSE",
+                         "TrackClients": "TRUE", "ClientOps": ALLOPS, "EagerFsm": "FALSE"}, "num": 100, "depth": 80}
+SIM_CLIENT_T = dict(SIM_CLIENT, num=1500, depth=100)
+
 E3 = {"ldr": True, "poll": True, "fsm": True}
 FUZZ = {
     "core": {"nodes": [1, 2, 3], "voters": [1, 2, 3], "nonvoters": [], "eager": E3, "steps": 120, "crash": 0.3, "fail": 0.4, "reconfig": 0, "snapshot": 0, "maxCmds": 8},
@@ -90,13 +100,18 @@ FUZZ = {
     "batch": {"nodes": [1, 2, 3], "voters": [1, 2, 3], "nonvoters": [], "eager": {"ldr": True, "poll": True, "fsm": False, "maxAppend": 2}, "steps": 220, "crash": 0.1, "fail": 0.8, "reconfig": 0, "snapshot": 0, "maxCmds": 14},
     # partitions: one node at a time is cut off (dials / RPCs fail, nothing delivered), the rest goes on, snapshots and compaction meanwhile
     "part": {"nodes": [1, 2, 3], "voters": [1, 2, 3], "nonvoters": [], "eager": E3, "steps": 260, "crash": 0.05, "fail": 0.2, "reconfig": 0, "snapshot": 1.2, "maxCmds": 18, "partition": 1.0},
+    # client semantics: updates, reads, barriers and dirty reads on every node, leader changes, crashes, partitions
+    "client": {"nodes": [1, 2, 3], "voters": [1, 2, 3], "nonvoters": [], "eager": {"ldr": True, "poll": True, "fsm": False}, "steps": 200, "crash": 0.15, "fail": 0.3, "reconfig": 0,
+               "snapshot": 0.3, "maxCmds": 30, "reads": 1.5, "partition": 0.5},
+    "clientx": {"nodes": [1, 2, 3, 4], "voters": [1, 2, 3], "nonvoters": [], "eager": E3, "steps": 220, "crash": 0.1, "fail": 0.3, "reconfig": 0.4,
+                "snapshot": 0.3, "maxCmds": 30, "reads": 1.0, "transfer": 0.4},
     "all": {"nodes": [1, 2, 3, 4], "voters": [1, 2, 3], "nonvoters": [], "eager": E3, "steps": 220, "crash": 0.2, "fail": 0.3, "reconfig": 0.5, "snapshot": 0.8, "maxCmds": 12},
 }
 
 
 def plan(preds, mcq, mct, attacks, sim=("core",), level="model_checking", assumptions=(), fuzz=None, runs=(160, 2000)):
     fuzz = fuzz if fuzz is not None else sim
-    sims = {"core": (SIM_CORE, SIM_CORE_T), "conf": (SIM_CONF, SIM_CONF_T), "snap": (SIM_SNAP, SIM_SNAP_T), "xfer": (SIM_XFER, SIM_XFER_T)}
+    sims = {"core": (SIM_CORE, SIM_CORE_T), "conf": (SIM_CONF, SIM_CONF_T), "snap": (SIM_SNAP, SIM_SNAP_T), "xfer": (SIM_XFER, SIM_XFER_T), "client": (SIM_CLIENT, SIM_CLIENT_T)}
     return {"level": level, "preds": preds, "mc": {"quick": mcq, "thorough": mcq + mct},
             "sims": {"quick": [sims[k][0] for k in sim], "thorough": [sims[k][1] for k in sim]},
             "fuzz": {"quick": [dict(FUZZ[k], runs=runs[0]) for k in fuzz], "thorough": [dict(FUZZ[k], runs=runs[1]) for k in fuzz]},
@@ -127,6 +142,10 @@ PLANS = {
     # C15: no self-inflicted death, every task completes, shutdown completes pending tasks
     "C15": plan(["C15_NoSelfInflictedDeath", "C15_AllTasksComplete", "C15_TaskCompletesOnce"], [SNAP_Q], [SNAP_T, CONF_T], ["FixD5", "FixD11", "FixD18"], sim=("snap",),
                 fuzz=("all", "snap", "fairconf"), runs=(128, 1600)),
+    # C07: client-visible semantics of updates / reads / barriers / dirty reads (ledger of submissions and completions)
+    "C07": plan(["C07_UpdateAtReportedPosition", "C07_AtMostOnce", "C07_RejectedNeverApplied", "C07_RealTimeOrder", "C07_ReadsReflectAccepted",
+                 "C07_ReadsOnlyCommitted", "C03_FsmIsCommittedPrefix"],
+                [CLIENT_Q], [CLIENT_T], ["G_ReadAfterCommit"], sim=("client",), fuzz=("client", "clientx"), runs=(160, 2000)),
     # C16: leadership transfer (task, target choice, timeout-now RPC, timers); fair continuation after transfers (xferconf)
     "C16": plan(["C16_SuccessMeansSteppedDown", "C16_TargetEligible", "C16_NoNewEntriesDuringTransfer", "C01_ElectionSafety", "C17_Converges"],
                 [XFER_Q1, XFER_Q2], [XFER_T], ["G_XferCaughtUp", "G_XferBlocksEntries", "G_XferSuccessOnHigherTerm", "D21"], sim=("xfer",),
